@@ -46,6 +46,9 @@ type explorer struct {
 	harnessErr  string
 	memo        sync.Map // inputHash -> symptom of deterministic (non-timing) observations
 	memoHits    int64
+	guards      map[string]string // symptom -> listed guard key
+	guarded     map[string]int
+	confirmed   map[string]bool
 	sampleCount map[string]int
 }
 
@@ -291,22 +294,33 @@ func (e *explorer) sweep(name string, gen func(emit func(Case) bool)) {
 
 func otherTarget(t int) int { return 1 - t }
 
+// GuardPrefix starts the key of a guard line in KNOWN_FINDINGS.txt: one listed
+// line `known: property=C13 key=guard symptom=<symptom> :: ...` stands for every
+// input that shows exactly that symptom (for a panic: error class and function),
+// see DESIGN.md 1.6 "Guards instead of blanket exclusions". Without such a line
+// every failing input is shrunk and keyed by its minimal witness.
+const GuardPrefix = "guard symptom="
+
 // report confirms, shrinks and reports one failing case.
 func (e *explorer) report(fc failingCase) {
 	c := fc.c
-	// every failing case is re-run twice; it must show the same symptom
-	slow := fc.sym == "hang" || strings.HasPrefix(fc.sym, "worker-death") || (fc.sym == "unbounded-recursion" && e.mode != "depth-counter")
-	for k := 0; k < 2; k++ {
-		if slow && k == 1 {
-			break // hangs and deaths were already re-run alone once; one more confirmation is enough
+	if gk, ok := e.guards[fc.sym]; ok {
+		e.mu.Lock()
+		e.guarded[fc.sym]++
+		first := e.guarded[fc.sym] == 1
+		e.mu.Unlock()
+		if first { // the sentinel is confirmed like any other failing case
+			for k := 0; k < 2; k++ {
+				if sym, _, _ := e.runOne(c.W, false); sym != fc.sym {
+					e.harness(fmt.Sprintf("a failing case did not reproduce: %s input=%s first=%s again=%q", c.Label, clip(renderTree(c.W.Files, c.W.Main), 300), fc.sym, sym))
+					return
+				}
+			}
 		}
-		sym, _, _ := e.runOne(c.W, slow)
-		if sym != fc.sym {
-			e.harness(fmt.Sprintf("a failing case did not reproduce: space=%s %s input=%s first=%s again=%q",
-				c.Space, c.Label, clip(renderTree(c.W.Files, c.W.Main), 300), fc.sym, sym))
-			return
-		}
+		e.r.Fail(gk, describe(fc.sym, fc.detail), nil)
+		return
 	}
+	slow := fc.sym == "hang" || strings.HasPrefix(fc.sym, "worker-death") || (fc.sym == "unbounded-recursion" && e.mode != "depth-counter")
 	same := func(w WCase) bool {
 		h := inputHash(w)
 		if v, ok := e.memo.Load(h); ok {
@@ -353,12 +367,34 @@ func (e *explorer) report(fc failingCase) {
 	} else {
 		inputKey = renderTree(c.W.Files, c.W.Main)
 	}
+	// Confirmation: the minimal witness (what is reported) is re-run twice with
+	// fresh executions and must show the same symptom; once per witness.
+	wkey := fc.sym + "|" + inputKey + "|" + fmt.Sprint(min.Target)
+	e.mu.Lock()
+	done := e.confirmed[wkey]
+	e.confirmed[wkey] = true
+	e.mu.Unlock()
+	if done {
+		return
+	}
+	reruns := 2
+	if slow {
+		reruns = 1 // hangs and deaths were already re-run alone during the sweep
+	}
+	for k := 0; k < reruns; k++ {
+		sym, _, _ := e.runOne(min, slow)
+		if sym != fc.sym {
+			e.harness(fmt.Sprintf("a failing case did not reproduce: space=%s %s minimal input=%s first=%s again=%q",
+				c.Space, c.Label, clip(inputKey, 300), fc.sym, sym))
+			return
+		}
+	}
 	// on which targets does the minimal input show the symptom?
 	targets := drive.Target(min.Target).String()
 	if !slow || c.Graph != nil {
 		o := min
 		o.Target = otherTarget(min.Target)
-		if same(o) {
+		if s2, _, _ := e.runOne(o, false); s2 == fc.sym {
 			targets = "bash+batch"
 			min.Target = 0
 		}
@@ -408,8 +444,12 @@ func Run() int {
 	defer pool.Close()
 	e := &explorer{r: r, pool: pool, mode: mode, watchdog: 30 * time.Second, deadline: deadline,
 		bySpace: map[string]map[string]int{}, sigs: findings.NewDistinct(), inputs: findings.NewDistinct(), nontriv: findings.NewDistinct(),
+		guards: map[string]string{}, guarded: map[string]int{}, confirmed: map[string]bool{},
 		skips: map[string]int{}, failSeen: map[string]bool{}, sampleCount: map[string]int{}}
 
+	for _, k := range r.KnownKeys(GuardPrefix) {
+		e.guards[strings.TrimPrefix(k, GuardPrefix)] = k
+	}
 	// handshake: the worker must answer and say whether the depth counter is compiled in
 	hs, _ := json.Marshal(WReq{Cases: []WCase{{Files: []WFile{{Name: "main.tsh", Data: []byte("print(1)\n")}}, Main: "main.tsh"}}})
 	resp, err := pool.Call(hs, 60*time.Second)
@@ -576,6 +616,7 @@ func Run() int {
 	r.Set("failing_cases", len(e.failing))
 	r.Set("failing_cases_by_symptom", failBySym)
 	r.Set("failing_cases_not_shrunk", int(notShrunk))
+	r.Set("failing_cases_under_listed_guard", e.guarded)
 	r.Set("skipped_unspecified", e.skips)
 	r.Set("timeouts_not_reproduced_alone", int(e.flaky))
 	r.Set("shrink_probe_memo_hits", int(e.memoHits))
